@@ -534,7 +534,7 @@ func (x *Run) doSelect(fr *Frame, st *State, ins *ssa.Select, outs *[]Outcome) [
 					}
 				}
 				if slot < len(ret.Tup) {
-					s.events = append(s.events, Event{Name: "recv", Args: []Val{ch, ret.Tup[slot]}, Ret: ok})
+					s.events = append(s.events, Event{Name: recvName(ch), Args: []Val{ch, ret.Tup[slot]}, Ret: ok})
 					s.assume(implies(not(ok.T), eq(ret.Tup[slot].T, x.d.zero(tup.At(slot).Type()))))
 				}
 			}
@@ -783,6 +783,12 @@ func (x *Run) enterLoopHeader(fr *Frame, from, to *ssa.BasicBlock, st *State, lp
 		}
 		if ann != nil && ann.Body != nil {
 			ba := &LoopAnn{Inv: ann.Body, Args: ann.BodyArgs}
+			if d := os.Getenv("GOVC_DEBUG_ITER"); d != "" && strings.Contains(x.fnShort(fr.fn), d) {
+				for i, e := range st.events {
+					fmt.Fprintf(os.Stderr, "ITER %s ev[%d]=%s nargs=%d\n", x.fnShort(fr.fn), i, e.Name, len(e.Args))
+				}
+				fmt.Fprintf(os.Stderr, "ITER trace %v\n", st.trace)
+			}
 			x.checkLoopInvExtra(fr, st, lp, ba, "iteration", fr.loopHead[to])
 		}
 		return nil
